@@ -240,7 +240,15 @@ def parse_race_reports(text):
                     break
             tops.append(top)
         real = sorted(t for t in tops if t and t != "HARNESS")
-        key = "race:" + "|".join(real) if real and "HARNESS" not in tops else "race:harness-only"
+        if tops and all(t == "HARNESS" for t in tops):
+            key = "race:harness-only"  # both accesses are performed by harness code: the harness's own data
+        elif "HARNESS" in tops:
+            # one access is performed in a harness frame, the other inside the code under test (or below it, stack
+            # cut off): the harness called into the code the way the code's own goroutines do (e.g. a method with a
+            # value receiver copies the object in the caller's frame) - that is a race of the code's data
+            key = "race:" + "|".join(real + ["called-from-harness"])
+        else:
+            key = "race:" + "|".join(real) if real else "race:outside-the-code-under-test"
         out.append({"key": key, "kinds": kinds, "tops": tops, "report": block.strip()[:6000]})
     return out
 
@@ -264,7 +272,9 @@ def step_harness_one(spec, h, tier, seed, log, race=False, extra_env=None, optio
     racelog = os.path.join(CACHE, f"race_{spec['id']}_{re.sub(r'[^A-Za-z0-9]', '', h['test'])}_{os.getpid()}")
     if race:
         cmd.append("-race")
-        env["GORACE"] = f"halt_on_error=0 log_path={racelog}"
+        # suppress_equal_addresses=0: by default the detector reports one race per address, so a racing access made by the
+        # harness itself (classified harness-only and ignored) would hide the same race between two sites of the code
+        env["GORACE"] = f"halt_on_error=0 suppress_equal_addresses=0 log_path={racelog}"
         env["VERIF_RACE"] = "1"
     cmd.append("./" + h["pkg"])
     t0 = time.time()
@@ -315,10 +325,11 @@ def step_harness_one(spec, h, tier, seed, log, race=False, extra_env=None, optio
             if r["key"] in seen:
                 continue
             seen.add(r["key"])
-            if r["key"] == "race:harness-only":
-                # one of the two accesses is performed by harness code itself (or no frame lies in the code under
-                # test): an artefact of the harness, not evidence about the code
-                res.setdefault("notes", []).append("race report with an access performed by the harness itself (ignored): " + " / ".join(str(t) for t in r.get("tops", [])))
+            if r["key"] in ("race:harness-only", "race:outside-the-code-under-test"):
+                # both accesses are performed by harness code, or no frame of either stack lies in the repository:
+                # not evidence about the code under test
+                res.setdefault("notes", []).append("race report without a frame in the code under test (ignored): " + " / ".join(str(t) for t in r.get("tops", []))
+                                                   + " :: " + re.sub(r"\s+", " ", r["report"])[:900])
                 continue
             kind = "oracle"
             res.setdefault("findings", []).append({"kind": kind, "key": r["key"], "case": f"{h['pkg']} {h['test']} under -race (seed {seed}, tier {tier})",
